@@ -60,8 +60,8 @@ ASSUMPTIONS = [
     "cell size given both ways at once (res attr AND coordinates that disagree) is not generated; res is a tuple of "
     "Python floats; coordinates are evenly spaced (dyadic steps), y ascending or descending, x ascending",
     "elevations beyond the alphabets {0,1,2,NaN} (x vertical scales 1, 1e-9, 1e-6, 1e3), {0,1,7,1e6,-3}, {0,1,NaN} "
-    "and the generic 6x7 rasters are not explored; +-inf elevations only as a locality perturbation (no formula / range assertion on outputs computed "
-    "from inf)",
+    "and the generic 6x7 rasters are not explored; +-inf elevations only as a locality perturbation (no formula / "
+    "range assertion on outputs computed from inf)",
     "offset invariance is asserted bit-identically and therefore only on integer-valued rasters whose sums stay below "
     "2^24 (every intermediate is then exact in float32 as well as in float64)",
     "rot90: curvature is asserted bit-identically (its two additions commute); slope bit-identically on integer-valued "
